@@ -42,6 +42,9 @@ type chainDesc struct {
 	// signing time (nil = none)
 	signingTime  *time.Time
 	timeViolated bool
+	// lessThanASecondLate is the supplied signing time (same pointer) when it lies less than a second after a NotAfter: given to the
+	// validator as it is, it is outside the validity; a sign request carries whole seconds, so through Sign it is the NotAfter second itself
+	lessThanASecondLate *time.Time
 	labels       []string // mods applied, for traces
 }
 
@@ -478,6 +481,22 @@ func chainMods(n int, p purposeKind) (viol []chainMod, benign []chainMod) {
 				_, na := narrow(d)
 				t := na.Add(time.Second)
 				d.signingTime, d.timeViolated = &t, true
+			})
+			// instants between two whole seconds: the bounds are inclusive, and nothing beyond them is inside
+			v(fmt.Sprintf("time-1ns-before-notbefore@%d", i), i, func(d *chainDesc) {
+				nb, _ := narrow(d)
+				t := nb.Add(-time.Nanosecond)
+				d.signingTime, d.timeViolated = &t, true
+			})
+			v(fmt.Sprintf("time-1ns-after-notafter@%d", i), i, func(d *chainDesc) {
+				_, na := narrow(d)
+				t := na.Add(time.Nanosecond)
+				d.signingTime, d.timeViolated, d.lessThanASecondLate = &t, true, &t
+			})
+			v(fmt.Sprintf("time-999999999ns-after-notafter-in-another-zone@%d", i), i, func(d *chainDesc) {
+				_, na := narrow(d)
+				t := na.Add(999999999 * time.Nanosecond).In(time.FixedZone("", 5*3600+1800))
+				d.signingTime, d.timeViolated, d.lessThanASecondLate = &t, true, &t
 			})
 			b(fmt.Sprintf("time-at-notbefore@%d", i), i, func(d *chainDesc) {
 				nb, _ := narrow(d)
